@@ -1,7 +1,6 @@
 package rig
 
 import (
-	"sync/atomic"
 	"bufio"
 	"bytes"
 	"context"
@@ -16,6 +15,7 @@ import (
 	"strconv"
 	"strings"
 	"sync"
+	"sync/atomic"
 	"time"
 
 	ws "github.com/gorilla/websocket"
@@ -136,15 +136,15 @@ func (w *World) Do(spec ReqSpec) HTTPResult { return w.Start(spec).Wait() }
 
 // ClientCfg selects protocol revision, transport and encodings of a client actor.
 type ClientCfg struct {
-	Rev       int    // 3 or 4
-	Transport string // polling | websocket | webtransport
-	B64       bool
-	JSONP     bool
-	J         string // value of the j parameter (JSONP)
-	Path      string // default /engine.io/
-	Extra     string // extra query string (without leading &)
-	Header    http.Header
-	AcceptEnc string
+	Rev        int    // 3 or 4
+	Transport  string // polling | websocket | webtransport
+	B64        bool
+	JSONP      bool
+	J          string // value of the j parameter (JSONP)
+	Path       string // default /engine.io/
+	Extra      string // extra query string (without leading &)
+	Header     http.Header
+	AcceptEnc  string
 	WSCompress bool
 	// CandidateRev, if non-zero, is the EIO value used when opening an upgrade candidate.
 	CandidateRev int
@@ -180,9 +180,9 @@ type OpenInfo struct {
 
 // Client is a protocol actor.
 type Client struct {
-	W   *World
-	Cfg ClientCfg
-	Sid string
+	W    *World
+	Cfg  ClientCfg
+	Sid  string
 	Open OpenInfo
 
 	mu      sync.Mutex
@@ -196,14 +196,14 @@ type Client struct {
 	curPoll *Exchange
 	npoll   int
 
-	WS     *ws.Conn
-	wsMu   sync.Mutex
-	postSem chan struct{}
-	WT     *webtrans.Conn
-	WTStream *fakenet.Stream // client side
+	WS             *ws.Conn
+	wsMu           sync.Mutex
+	postSem        chan struct{}
+	WT             *webtrans.Conn
+	WTStream       *fakenet.Stream // client side
 	WTServerStream *fakenet.Stream
-	wtMu   sync.Mutex
-	cancel context.CancelFunc
+	wtMu           sync.Mutex
+	cancel         context.CancelFunc
 
 	readerDone chan struct{}
 	// OnPacket, if set, is called for every received packet (reader goroutine).
